@@ -116,6 +116,13 @@ class MaskFlow(MustAnalysis):
 
     # -- sinks
     def use(self, expr, state, stmt):
+        if isinstance(stmt, (ast.If, ast.While)) and expr is stmt.test:
+            # a decision (raise / fallback / branch of the fit) taken from the
+            # values of a per-sample array has to look at the labeled rows only
+            raw = [n for n in self.unmasked_reads(expr, state.tokens) if not self._none_test(expr, n)]
+            self.sinks += 1 if (raw or self.masked_reads(expr, state.tokens)) else 0
+            if raw:
+                self._report(stmt.test, raw[0], state, "branch condition computed from all rows")
         for n in ast.walk(expr):
             if not isinstance(n, ast.Call):
                 continue
@@ -185,6 +192,14 @@ class MaskFlow(MustAnalysis):
                 out.append(n)
         return out
 
+    @staticmethod
+    def _none_test(expr, name):
+        for n in ast.walk(expr):
+            if isinstance(n, ast.Compare) and n.left is name and len(n.ops) == 1 \
+                    and isinstance(n.ops[0], (ast.Is, ast.IsNot)):
+                return True
+        return False
+
     def masked_reads(self, e, tokens):
         return any(isinstance(n, ast.Subscript) and self.expr_state(n, tokens) == "masked" for n in ast.walk(e))
 
@@ -209,7 +224,8 @@ def run(p, report, tier):
     report.rule("R12.1", "in the fit functions of the supervised wrappers every per-sample array (X, y, sample_weight "
                 "from _validate_data, and what is derived from them) that reaches the wrapped estimator's fit / "
                 "partial_fit, is stored as training data, or is passed to a call together with a masked array, is "
-                "subscripted by the labeled mask computed from is_labeled - on every path", floor=4)
+                "subscripted by the labeled mask computed from is_labeled - on every path; the same holds for statistics "
+                "stored on self and for branch conditions (raise / fallback decisions) computed from such arrays", floor=4)
     report.rule("R12.2", "ParzenWindowClassifier.fit / MixtureModelClassifier.fit obtain their label statistics only "
                 "through compute_vote_vectors on the encoded labels with the encoder's sentinel (zero weight for "
                 "missing labels is decided under C17)", floor=2)
